@@ -85,7 +85,7 @@ def scoped_subterms(n: Node, elements: Callable[[Node, dict], Optional[list]], e
     return out
 
 
-def localize_scoped(n: Node, fails: Callable[[Node, dict], bool], elements, limit: int = 80):
+def localize_scoped(n: Node, fails: Callable[[Node, dict], bool], elements, limit: int = 1000):
     """Like localize(), but looks inside macro bodies. Returns (node, extra bindings)."""
     subs = scoped_subterms(n, elements)
     if len(subs) > limit:
@@ -99,7 +99,7 @@ def localize_scoped(n: Node, fails: Callable[[Node, dict], bool], elements, limi
     return n, {}
 
 
-def localize(n: Node, fails: Callable[[Node], bool], limit: int = 60, closed: bool = True) -> Node:
+def localize(n: Node, fails: Callable[[Node], bool], limit: int = 1000, closed: bool = True) -> Node:
     subs = closed_subterms(n) if closed else all_subterms(n)
     if len(subs) > limit:
         subs = subs[-limit:]
